@@ -43,9 +43,9 @@ class Run:
              "roots": [{"path": r, "options": {"min_depth": 0, "max_depth": 0, "archives": False, "symlinks": False, "gitignore": interp.NONE, "hgignore": interp.NONE,
                                               "dockerignore": interp.NONE, "traversal": interp.V("TraversalMode::Bfs"), "regexp": False, "alias": interp.NONE}} for r in roots],
              "limit": limit}
-        selfv = {"query": q, "results_writer": {"__rw": True}, "output_buffer": {"__ob": True}, "raw_output_buffer": [interp.HMap({"__part": "all"})],
+        selfv = interp.LazySelf({"query": q, "results_writer": {"__rw": True}, "output_buffer": {"__ob": True}, "raw_output_buffer": [interp.HMap({"__part": "all"})],
                  "partitioned_output_buffer": parts, "config": {"debug": False, "gitignore": interp.NONE, "hgignore": interp.NONE, "dockerignore": interp.NONE}, "error_count": 0, "found": len(buffered_rows) if not roots else 0, "dir_queue": [], "default_config": {"gitignore": interp.NONE, "hgignore": interp.NONE, "dockerignore": interp.NONE},
-                 "hgignore_filters": [], "dockerignore_filters": [], "visited_inodes": set(), "current_follow_symlinks": False}
+                 "hgignore_filters": [], "dockerignore_filters": [], "visited_inodes": set(), "current_follow_symlinks": False})
 
         def stdout_op(what):
             i = nout[0]
